@@ -15,7 +15,7 @@ from checks import c01
 
 ID = "C07"
 LEVEL = "model_checking"
-RULE = ("every model of the family (8 x-rates x 4 y-rates, z affine; plus every E3 two-state model with <= 1 intermediate in thorough) x every subset of "
+RULE = ("every model of the family (8 x-rates x 4 y-rates, z affine; plus every zero-intermediate E3 two-state model, both namings, in thorough) x every subset of "
         "states as stiff_states (+ foreign name, duplicates, reversed order, None) x delta {1e-8, 0.5} x backend {numpy, c (+jax thorough)}: "
         "hybrid_rush_larsen compared slot by slot, bit-for-bit, with generalized_rush_larsen (X in S) / explicit_euler (X not in S) of the same "
         "module and with the reference formula on the grid. Non-trivial = configuration where the two candidate updates differ on >= 1 point.")
@@ -71,7 +71,7 @@ def items(tier):
     specs = family()
     if tier != "quick":
         shapes = models.e3_shapes("quick")
-        specs += [(k, s) for k, s in models.e3_specs("quick", variants=False) if len(shapes[int(k.split("|")[1])][0]) <= 1 and "|n0|" in k]
+        specs += [(k, s) for k, s in models.e3_specs("quick", variants=False) if len(shapes[int(k.split("|")[1])][0]) == 0]  # every zero-intermediate E3 shape, both namings
     for key, sp in specs:
         its.append({"key": key, "kind": "hyb", "spec": sp, "tier": tier, "sample": {"model": key, "text": models.spec_text(sp)}})
     return its
@@ -113,7 +113,9 @@ def run_item(item):
                     s = [0.0] * len(sidx)
                     for n, i in sidx.items():
                         s[i] = pt[n]
-                    p = [pt["p"]]
+                    p = [0.0] * len(ref.params)
+                    for n in ref.params:
+                        p[mod.index("parameter", n)] = pt[n]
                     try:
                         eu = mod.call("explicit_euler", pt["t"], s, p, dt=0.125)[0]
                         grl = mod.call("generalized_rush_larsen", pt["t"], s, p, dt=0.125)[0]
